@@ -321,6 +321,12 @@ def seed_rules(chk, repo, eff, clause, global_users, only=None):
     for g_ in repo.all_functions():
         for k in callees_of(repo, g_):
             callers.setdefault(k, set()).add(g_.key)
+        # a private function handed on by name (functools.partial(_helper, ...), a table entry) runs on behalf of the function
+        # that names it
+        for n_ in ast.walk(g_.node):
+            if isinstance(n_, ast.Name) and isinstance(n_.ctx, ast.Load) and n_.id.startswith('_') and n_.id in g_.module.functions \
+                    and f'{g_.module.name}.{n_.id}' != g_.key:
+                callers.setdefault(f'{g_.module.name}.{n_.id}', set()).add(g_.key)
 
     def part_of_documented(key, seen=()):
         """a private helper split off a documented unseeded model: new since the rules were written and called by
